@@ -163,9 +163,12 @@ macro_rules! c15_layout {
 c15_layout!(c02_c14_c15_q_layout_4x6_a, FONT_4X6, 9, [("!", "!"), ("! \"", "! \"")]);
 c15_layout!(c02_c14_c15_q_layout_4x6_b, FONT_4X6, 9, [("!\n\" ", "!\n\" "), ("!\r\n\"", "!\n\"")]);
 c15_layout!(c02_c14_c15_q_layout_6x10_c, FONT_6X10, 9, [("\n!!", "\n!!"), ("! \r\n\r\n\"", "! \n\n\"")]);
-c15_layout!(c02_c14_c15_q_layout_6x10_d, FONT_6X10, 9, [("", "")]);
-c15_layout!(c02_c14_c15_q_layout_6x10_e, FONT_6X10, 9, [("!\n", "!\n")]);
-c15_layout!(c02_c14_c15_q_layout_6x10_f, FONT_6X10, 9, [("\r\n", "\n")]);
+c15_layout!(c02_c14_c15_q_layout_6x10_d, FONT_6X10, 9, [("", ""), ("!!", "!!")]);
+// skeletons with an empty LAST line did not finish within the quick cap (600 s): thorough tier
+#[cfg(feature = "thorough")]
+c15_layout!(c02_c14_c15_t_layout_6x10_e, FONT_6X10, 9, [("!\n", "!\n"), ("!!", "!!")]);
+#[cfg(feature = "thorough")]
+c15_layout!(c02_c14_c15_t_layout_6x10_f, FONT_6X10, 9, [("\r\n", "\n"), ("!!", "!!")]);
 
 /// draw() returns what measure_string predicts; drawing s1 then s2 at the returned position is
 /// drawing s1+s2 (call logs: k-th glyph cell equal)
